@@ -1,7 +1,7 @@
 (* C46 - expired and refreshed attributes reflect the database.
    Model: coq/orm/Expire.v - one Session, any number of persistent instances (primary key k) with attributes a,
-   any history of read / set / expire / expire_all / refresh / commit / rollback / populate_existing operations
-   interleaved with updates by an external connection (Ext).  [reach ... r0 s]: s is reached from the state "all
+   any history of read / set / expire / expire_all / refresh / commit / rollback / populate_existing (full rows, or rows
+   that carry only some columns) / expunge / add operations interleaved with updates by an external connection (Ext).  [reach ... r0 s]: s is reached from the state "all
    instances just loaded from rows r0" by some history.  [view s] = the rows the session's transaction sees: its
    snapshot when a transaction is open, the committed rows otherwise.  eoc = expire_on_commit. *)
 From Coq Require Import List ZArith NArith Bool Arith.
@@ -10,10 +10,11 @@ From SAV.orm Require Import Expire ExpireProofs ExpireMain.
 Open Scope Z_scope.
 
 (* clause 1.  After an operation that expires or refreshes attribute a of instance k
-     [expires]: expire(k[, names containing a]), refresh(k[, names containing a]), expire_all, populate_existing,
-                commit with expire_on_commit, rollback of an open transaction
+     [expires]: k is attached to the session, and the operation is expire(k[, names containing a]), refresh(k[, names
+                containing a]), expire_all, populate_existing (whether or not the rows carry column a), commit with
+                expire_on_commit (whether or not the transaction emitted SQL), rollback of an open transaction
    and after ANY further history l of operations and external updates in which (k, a) is not set again and no commit
-   without expire_on_commit happens [keeps], a read of k.a returns the value the database currently holds for the
+   without expire_on_commit happens and k is not expunged [keeps], a read of k.a returns the value the database currently holds for the
    session's transaction: the committed value when no snapshot is open, the snapshot's value otherwise. *)
 Theorem c46_read_after_expire_is_current_db_value :
   forall eoc pks attrs r0 s0 o l k a,
@@ -43,12 +44,12 @@ Theorem c46_set_makes_pending :
 Proof. exact main_set_pending. Qed.
 Print Assumptions c46_set_makes_pending.
 
-(* clause 3.  refresh(k, names) (empty list = all attributes) in ANY state: exactly the named attributes of exactly
+(* clause 3.  refresh(k, names) (empty list = all attributes) of an attached instance in ANY state: exactly the named attributes of exactly
    instance k are overwritten with the transaction's values and lose their pending change; every other attribute
    keeps value, pending change and expired flag; other instances, the database and the transaction's view are
    untouched; one SELECT. *)
 Theorem c46_refresh_overwrites_exactly_named_attrs :
-  forall eoc pks attrs s k ns,
+  forall eoc pks attrs s k ns, oatt (objs s k) = true ->
   let s' := fst (step eoc pks attrs (Refresh k ns) s) in
   (forall a, named ns a = true ->
      oval (objs s' k) a = Some (view s k a) /\ orig (objs s' k) a = None /\ oexp (objs s' k) a = false) /\
@@ -60,6 +61,18 @@ Theorem c46_refresh_overwrites_exactly_named_attrs :
   selects pks attrs (Refresh k ns) s (snd (step eoc pks attrs (Refresh k ns) s)) = 1%nat.
 Proof. exact refresh_exact. Qed.
 Print Assumptions c46_refresh_overwrites_exactly_named_attrs.
+
+(* populate_existing from rows that lack loaded columns (partial-column statements, base-class queries): the columns in
+   the row are overwritten with the transaction's values, every other attribute is discarded and marked expired, and
+   no pending change survives - so nothing keeps an old value *)
+Theorem c46_populate_existing_partial_rows :
+  forall eoc pks attrs s ns k, oatt (objs s k) = true ->
+  let s' := fst (step eoc pks attrs (PopExCols ns) s) in
+  forall a, orig (objs s' k) a = None /\
+    (in_row ns a = true -> oval (objs s' k) a = Some (view s k a)) /\
+    (in_row ns a = false -> oval (objs s' k) a = None /\ oexp (objs s' k) a = true).
+Proof. exact popex_cols_exact. Qed.
+Print Assumptions c46_populate_existing_partial_rows.
 
 (* the invariants the clauses rest on *)
 Theorem c46_wellformed : forall eoc pks attrs r0 s, reach eoc pks attrs r0 s -> wf s.
@@ -95,5 +108,15 @@ Example c46_ex_database_refuses_stale_flush :
   snd (step false two four Commit (run false two four [Ext 1 1 50; SetA 1 2 7] (init r123))) = RBusy /\
   snd (step false two four (Read 1 2) (run false two four [Ext 1 1 50; SetA 1 2 7; Commit] (init r123))) = RVal (Some 2).
 Proof. exact ex_busy. Qed.
+Example c46_ex_reattached_instance_expired_by_commit :
+  snd (step true two four (Read 1 1)
+         (run true two four [Expunge 1; Commit; Ext 1 1 50; Add 1; Commit] (init r123))) = RVal (Some 50) /\
+  snd (step true two four (Read 1 1)
+         (run true two four [Expunge 1; Commit; Ext 1 1 50] (init r123))) = RVal (Some 1).
+Proof. exact ex_reattach. Qed.
+Example c46_ex_populate_existing_partial_row :
+  snd (step false two four (Read 1 2)
+         (run false two four [Commit; Ext 1 2 50; SetA 1 2 77; PopExCols [1%nat]] (init r123))) = RVal (Some 50).
+Proof. exact ex_popex_cols. Qed.
 Example c46_ex_reachable : reach false two four r123 (run false two four [Commit; Ext 1 1 50] (init r123)).
 Proof. exact ex_reach. Qed.
